@@ -92,7 +92,7 @@ def interior_search(ctx, shim, r, n):
 # ------------------------------------------------------------------------------------------------
 # shape level: HarfBuzz's verifier (cut at all unflagged cluster starts, re-shape, concatenate, compare)
 
-def metamorphic_search(ctx, shim, r, per_font, pc, pt, only_aat, name, verifier, flag_words, what, rule, fonts=None):
+def metamorphic_search(ctx, shim, r, per_font, pc, pt, only_aat, name, verifier, flag_words, what, rule, fonts=None, kind="break"):
     """shared driver of the break-safety (C03) and concat-redistribution (C04) experiments"""
     fs = F.FontSet(r, limit=fonts, only_aat=only_aat)
     sh = []
@@ -107,7 +107,7 @@ def metamorphic_search(ctx, shim, r, per_font, pc, pt, only_aat, name, verifier,
         if o["status"] in ("ok", "DIFF"):
             cuts += len(o["pieces"]) - 1
         if o["status"] == "DIFF":
-            cls = F.known_class(s)
+            cls = F.known_class(s, kind)
             if cls: known.setdefault(cls, []).append((len(s.text), s, o))
             else: bad.append((len(s.text), s, o))
         elif o["status"] in ("noresult", "piecefail"):
